@@ -527,6 +527,10 @@ MOTIFS = [
     [["new_space", "-", "A", []], ["new_cells", "A", "f", F(0, 1)], ["new_cells", "A", "g", F(1, 1, "f")],
      ["new_space", "-", "B", ["A"]], ["set_param", "B", 1], ["new_space", "-", "C", []],
      ["new_space", "C", "X", ["A"]], ["set_param", "C.X", 1], ["new_cells", "C", "h", F(10, 1, "g", "r", "X")]],
+    # two sub spaces of one base using one name for members of different kinds
+    [["new_space", "-", "A", []], ["new_space", "-", "B", ["A"]], ["new_space", "-", "C", ["A"]],
+     ["new_cells", "B", "f", F(0, 1)], ["set_ref", "C", "f", 3], ["new_cells", "C", "g", F(2, 1, "g", "f")],
+     ["set_ref", "B", "s", 4], ["new_space", "C", "s", []]],
     # chain of three spaces with overrides
     [["new_space", "-", "A", []], ["new_cells", "A", "f", F(0, 1)], ["new_cells", "A", "g", F(1, 1, "f")],
      ["new_space", "-", "B", ["A"]], ["new_space", "-", "C", ["B"]], ["set_formula", "B", "f", F(0, 2)]],
@@ -583,8 +587,22 @@ def single_edits(live):
         free = [c for c in W.CELLS if c not in s.cells]
         if free:
             edits.append(["new_cells", path, free[0], F(0, 9)])
+    used = set()
+    for path, s in spaces:
+        used |= set(s.cells) | set(s._own_refs) | set(s.spaces)
+    used = sorted(n for n in used if not n.startswith("_"))
+    for path, s in spaces:
+        for nm in used:
+            if nm not in s.cells and nm not in s._own_refs and nm not in s.spaces:
+                edits.append(["new_cells", path, nm, F(0, 9)])
+                edits.append(["set_ref", path, nm, 51])
+                edits.append(["new_space", path, nm, []])
     edits += [["set_mref", "u", 60], ["set_mref", "r", 61], ["del_mref", "u"]]
-    return edits
+    out = []
+    for e in edits:
+        if e not in out:
+            out.append(e)
+    return out
 
 
 def enumerate_edits(ctx, out, prop, hooks_factory, cfg, stats, quick_per_motif=16, pairs_per_motif=6):
